@@ -335,18 +335,35 @@ Proof.
   cbn [ends_with_pct]. destruct l as [|a [|b [|d r]]]; try (apply IH; exact H2); try exact H1.
 Qed.
 
-Theorem core_did_complete m i : m <> [] -> forallb char_method m = true -> i <> [] -> forallb char_method_id i = true ->
-  core_did_parse ([100; 105; 100; 58] ++ m ++ [58] ++ i) = Ok (m, i).
+Theorem core_did_tp_complete m i : m <> [] -> forallb char_method m = true -> i <> [] -> forallb char_method_id i = true ->
+  core_did_parse_tp ([100; 105; 100; 58] ++ m ++ [58] ++ i) = Ok (m, i).
 Proof.
   intros Nm Cm Ni Ci.
   assert (wf_parts m i [] None None) as W by (constructor; auto; intros x Hx; discriminate).
   destruct (tp_parse_complete _ _ _ _ _ W) as [c [P [Om [Oi [Op [Oq Of]]]]]].
   assert (url_text m i [] None None = [100; 105; 100; 58] ++ m ++ [58] ++ i) as E by (unfold url_text; cbn [optpre]; rewrite !app_nil_r; reflexivity).
-  rewrite E in P. unfold core_did_parse.
+  rewrite E in P. unfold core_did_parse_tp.
   rewrite <- E at 1 2. rewrite (trim_plain _ (url_text_plain _ _ _ _ _ W)), list_eqb_refl'. cbn [negb].
   rewrite <- E at 1. rewrite (ends_with_pct_no_pct _ (url_text_no_pct _ _ _ _ _ W)).
   rewrite P. cbn [obind]. apply check_validity_base; auto.
 Qed.
+
+(* CoreDID::parse (own splitter) is complete on "did:" m ":" i for EVERY valid method id, percent-encoded triples included *)
+Lemma method_no_colon m : forallb char_method m = true -> ~ In 58 m.
+Proof. intros H Hc. rewrite forallb_forall in H. specialize (H _ Hc). vm_compute in H. discriminate. Qed.
+Theorem core_did_complete_pct m i : m <> [] -> forallb char_method m = true -> i <> [] -> valid_method_id i = true ->
+  core_did_parse ([100; 105; 100; 58] ++ m ++ [58] ++ i) = Ok (m, i).
+Proof.
+  intros Nm Cm Ni Vi. cbn [app]. unfold core_did_parse. rewrite !N.eqb_refl. cbn [andb negb]. unfold is_colon. rewrite N.eqb_refl. cbn [negb].
+  rewrite (split_once_app 58 m i (method_no_colon m Cm)). cbn [fst snd]. unfold valid_method_name. rewrite Cm, Vi.
+  destruct m; [contradiction|]. destruct i; [contradiction|]. reflexivity.
+Qed.
+Theorem core_did_complete m i : m <> [] -> forallb char_method m = true -> i <> [] -> forallb char_method_id i = true ->
+  core_did_parse ([100; 105; 100; 58] ++ m ++ [58] ++ i) = Ok (m, i).
+Proof. intros Nm Cm Ni Ci. apply core_did_complete_pct; auto. apply valid_mid_plain. exact Ci. Qed.
+(* whatever the route through the third-party parser accepted is accepted, with the same components *)
+Theorem core_did_parse_tp_included s mi : core_did_parse_tp s = Ok mi -> core_did_parse s = Ok mi.
+Proof. destruct mi as [m i]. intros H. destruct (core_did_parse_tp_sound s m i H) as [-> [Nm [Ni [Vm Vi]]]]. apply core_did_complete_pct; auto. Qed.
 
 (* ---- consequences in the words of the property ---- *)
 
@@ -504,15 +521,24 @@ Proof.
 Qed.
 
 (* plain DID: accepted percent-free strings re-parse; acceptance is exactly well-formedness *)
-Theorem core_did_accept_iff s : no_pct s = true ->
+Theorem core_did_accept_iff s :
   ((exists mi, core_did_parse s = Ok mi) <->
-   exists m i, s = [100; 105; 100; 58] ++ m ++ [58] ++ i /\ m <> [] /\ forallb char_method m = true /\ i <> [] /\ forallb char_method_id i = true).
+   exists m i, s = [100; 105; 100; 58] ++ m ++ [58] ++ i /\ m <> [] /\ forallb char_method m = true /\ i <> [] /\ valid_method_id i = true).
 Proof.
-  intros NP. split.
+  split.
   - intros [[m i] H]. destruct (core_did_parse_sound s m i H) as [Es [Nm [Ni [Vm Vi]]]]. exists m, i. repeat split; auto.
-    apply valid_mid_class; [|exact Vi]. rewrite Es in NP. repeat (apply no_pct_app in NP as [? NP]). exact NP.
-  - intros [m [i [-> [Nm [Cm [Ni Ci]]]]]]. exists (m, i). apply core_did_complete; auto.
+  - intros [m [i [-> [Nm [Cm [Ni Vi]]]]]]. exists (m, i). apply core_did_complete_pct; auto.
 Qed.
+(* the accepted value re-parses from its string form to itself, and so does the value after a successful set_method_name / set_method_id
+   (each validates its argument with valid_method_name / valid_method_id and refuses the empty string) - for EVERY value, percent or not *)
+Theorem core_did_reparse s m i : core_did_parse s = Ok (m, i) -> core_did_parse ([100; 105; 100; 58] ++ m ++ [58] ++ i) = Ok (m, i).
+Proof. intros H. destruct (core_did_parse_sound s m i H) as [<- _]. exact H. Qed.
+Theorem core_did_set_method_id_reparses s m i i' : core_did_parse s = Ok (m, i) -> i' <> [] -> valid_method_id i' = true ->
+  core_did_parse ([100; 105; 100; 58] ++ m ++ [58] ++ i') = Ok (m, i').
+Proof. intros H Ni Vi. destruct (core_did_parse_sound s m i H) as [_ [Nm [_ [Vm _]]]]. apply core_did_complete_pct; auto. Qed.
+Theorem core_did_set_method_name_reparses s m i m' : core_did_parse s = Ok (m, i) -> m' <> [] -> valid_method_name m' = true ->
+  core_did_parse ([100; 105; 100; 58] ++ m' ++ [58] ++ i) = Ok (m', i).
+Proof. intros H Nm Vm. destruct (core_did_parse_sound s m i H) as [_ [_ [Ni [_ Vi]]]]. apply core_did_complete_pct; auto. Qed.
 
 (* ---- totality outside K_pct: on a percent-free input neither parser panics ---- *)
 Lemma set_path_total v : set_path v <> Panic.
@@ -623,7 +649,7 @@ Proof.
     assert (o_path c <= length (trim s))%nat as L3.
     { rewrite Op. rewrite Es at 1. rewrite !app_length. cbn [length optpre]. lia. }
     apply trim_same. pose proof (trim_len s). lia. }
-  unfold core_did_parse. rewrite T, list_eqb_refl'. cbn [negb]. rewrite (ends_with_pct_no_pct _ NP). exact H.
+  apply core_did_parse_tp_included. unfold core_did_parse_tp. rewrite T, list_eqb_refl'. cbn [negb]. rewrite (ends_with_pct_no_pct _ NP). exact H.
 Qed.
 
 (* ---- Eq / Ord / Hash agree with one another ---- *)
@@ -709,22 +735,17 @@ Theorem join_sound u seg j : wf_url u -> did_url_join u seg = Ok j ->
   u_did j = u_did u /\ u_method j = u_method u /\ u_mid j = u_mid u
   /\ (no_pct (did_url_to_string j) = true -> wf_url j /\ did_url_parse (did_url_to_string j) = Ok j).
 Proof.
-  intros W H. destruct (wf_url_parts u W) as [p [oq [of [Wp [Es [Ep [Eq Ef]]]]]]].
-  pose proof W as [Ed [Nm [Cm [Ni [Ci _]]]]].
+  intros W H. pose proof W as [Ed [Nm [Cm [Ni [Ci _]]]]].
   unfold did_url_join in H. destruct seg as [|c seg']; [discriminate|].
   destruct (negb ((c =? 47) || (c =? 63) || (c =? 35))); [discriminate|].
-  rewrite Es in H.
-  destruct (tp_parse_complete _ _ _ _ _ Wp) as [bc [P [Om [Oi [Op [Oq Of]]]]]]. rewrite P in H. cbn [obind] in H.
-  destruct (slices_of_offsets _ _ _ _ _ bc Om Oi Op Oq Of) as [_ [_ [Hbp [Hbq [_ Hb]]]]].
   apply obind_ok in H as [rc [_ H]]. apply obind_ok in H as [P' [_ H]]. apply obind_ok in H as [Q' [_ H]]. apply obind_ok in H as [F' [_ H]].
-  rewrite Hbp, Hbq in H. cbn [obind] in H.
+  cbv zeta in H.
   apply obind_ok in H as [up [Sp H]]. apply obind_ok in H as [uq [Sq H]]. apply obind_ok in H as [uf [Sf H]].
-  rewrite Hb in H.
-  rewrite (check_validity_base (u_method u) (u_mid u) _ Nm Cm Ni Ci) in H; cbn [o_method o_mid o_path o_query o_frag]; auto.
-  cbn [obind fst snd] in H. inversion H; subst j; clear H. cbn [u_did u_method u_mid u_path u_query u_frag].
-  split; [symmetry; exact Ed|]. split; [reflexivity|]. split; [reflexivity|].
+  destruct (negb (valid_method_name (u_method u)) || negb (valid_method_id (u_mid u))); [discriminate|].
+  inversion H; subst j; clear H. cbn [u_did u_method u_mid u_path u_query u_frag].
+  split; [reflexivity|]. split; [reflexivity|]. split; [reflexivity|].
   intros NP.
-  assert (wf_url {| u_did := [100; 105; 100; 58] ++ u_method u ++ [58] ++ u_mid u; u_method := u_method u; u_mid := u_mid u; u_path := up; u_query := uq; u_frag := uf |}) as Wj.
+  assert (wf_url {| u_did := u_did u; u_method := u_method u; u_mid := u_mid u; u_path := up; u_query := uq; u_frag := uf |}) as Wj.
   { unfold did_url_to_string in NP. cbn [u_did u_path u_query u_frag] in NP.
     apply no_pct_app in NP as [_ NP]. apply no_pct_app in NP as [NPp NP]. apply no_pct_app in NP as [NPq NPf].
     unfold wf_url. cbn [u_did u_method u_mid u_path u_query u_frag]. repeat split; auto.
@@ -735,6 +756,14 @@ Proof.
     - intros x Hx. subst uf. apply set_fragment_sound in Sf. destruct Sf as [t [Et [Nt [V _]]]]. exists t. split; [exact Et|].
       subst x. cbn [oapp] in NPf. apply no_pct_cons in NPf as [_ NPf]. split; [exact Nt|exact (valid_seg_class _ _ NPf V)]. }
   split; [exact Wj|exact (wf_url_reparses _ Wj)].
+Qed.
+(* join never touches the DID part - for EVERY receiver and segment (percent or not): the receiver's text is not re-parsed *)
+Theorem join_keeps_did u seg j : did_url_join u seg = Ok j -> u_did j = u_did u /\ u_method j = u_method u /\ u_mid j = u_mid u.
+Proof.
+  unfold did_url_join. destruct seg as [|c seg']; [discriminate|]. destruct (negb _); [discriminate|]. intros H.
+  apply obind_ok in H as [rc [_ H]]. apply obind_ok in H as [P' [_ H]]. apply obind_ok in H as [Q' [_ H]]. apply obind_ok in H as [F' [_ H]]. cbv zeta in H.
+  apply obind_ok in H as [up [_ H]]. apply obind_ok in H as [uq [_ H]]. apply obind_ok in H as [uf [_ H]].
+  destruct (_ || _); [discriminate|]. inversion H. cbn. auto.
 Qed.
 
 (* a segment that is not a relative path, query or fragment is refused *)
@@ -772,9 +801,6 @@ Proof.
   intros W Nf Cf. destruct (wf_url_parts u W) as [p [oq [of [Wp [Es [Ep [Eq Ef]]]]]]].
   pose proof W as [Ed [Nm [Cm [Ni [Ci _]]]]].
   unfold did_url_join. change (negb ((35 =? 47) || (35 =? 63) || (35 =? 35))) with false. cbn iota.
-  rewrite Es.
-  destruct (tp_parse_complete _ _ _ _ _ Wp) as [bc [P [Om [Oi [Op [Oq Of]]]]]]. rewrite P. cbn [obind].
-  destruct (slices_of_offsets _ _ _ _ _ bc Om Oi Op Oq Of) as [_ [_ [Hbp [Hbq [_ Hb]]]]].
   (* the relative reference "#f" *)
   assert (tp_rel_offsets (35 :: f) = Ok {| o_method := 0; o_mid := 0; o_path := 0; o_query := None; o_frag := Some O |}) as R.
   { unfold tp_rel_offsets. change (stop_path 35) with true. cbn iota. cbn [skipn]. change (35 =? 35) with true. cbn iota. cbn [negb].
@@ -785,10 +811,12 @@ Proof.
   assert (tp_fragment (35 :: f) {| o_method := 0; o_mid := 0; o_path := 0; o_query := None; o_frag := Some O |} = Ok (Some f)) as RF.
   { unfold tp_fragment, slice_from, slice. cbn [o_frag length Nat.add]. rewrite Nat.leb_refl. cbn [Nat.leb andb obind skipn]. 
     replace (S (length f) - 1)%nat with (length f) by lia. rewrite firstn_all. reflexivity. }
-  rewrite RP, RQ, RF. cbn [obind]. rewrite Hbp, Hbq. cbn [obind is_nil].
+  rewrite RP, RQ, RF. cbn [obind is_nil]. cbv zeta.
+  assert (oapp (u_path u) = p) as Bp by (rewrite Ep; destruct p; reflexivity).
+  assert (match u_query u with Some q => Some (strip1 63 q) | None => None end = oq) as Bq by (rewrite Eq; destruct oq; reflexivity).
+  rewrite Bp, Bq.
   rewrite (set_path_of_wf _ _ _ _ _ Wp). cbn [obind].
   rewrite (set_query_of_class oq) by (intros q Hq; destruct (wf_q _ _ _ _ _ Wp q Hq) as [A [B _]]; auto). cbn [obind].
   rewrite (set_fragment_of_class (Some f)) by (intros x Hx; inversion Hx; subst x; auto). cbn [obind].
-  rewrite Hb. rewrite (check_validity_base (u_method u) (u_mid u) _ Nm Cm Ni Ci); cbn [o_method o_mid o_path o_query o_frag]; auto.
-  cbn [obind fst snd option_map]. unfold with_frag. rewrite <- Ed, <- Ep, <- Eq. reflexivity.
+  unfold valid_method_name. rewrite Cm, (valid_mid_plain _ Ci). cbn [negb orb option_map]. unfold with_frag. rewrite <- Ep, <- Eq. reflexivity.
 Qed.
